@@ -124,7 +124,9 @@ def serveUdp (authoritativeOnly : Bool) (resolver : ServerResolver) (datagram : 
 /-- `read_tcp_bytes` on a stream that delivers `received` (everything after the 2-octet prefix
     announcing `expected`) and then ends: the message, or the ID for the FORMERR. -/
 def tcpRead (expected : Nat) (received : List UInt8) : Except (Option Nat) (List UInt8) :=
-  if received.length ≥ expected then .ok received     -- read_buf may deliver more than announced
+  -- the buffer is allocated with exactly the announced capacity and `read_buf` fills spare capacity
+  -- only: the message is the first `expected` octets, whatever else is queued on the connection
+  if received.length ≥ expected then .ok (received.take expected)
   else
     .error (match received with
             | a :: b :: _ => some (a.toNat * 256 + b.toNat)
